@@ -6,7 +6,7 @@ import runner, coreutil, gen_core
 from coreutil import Scenario, events, reads
 from refcodec import server_frame, close_payload
 
-TRUSTED = ['correspondence: harness/world.py run_chain (two connections on one WebSocket object)', 'late finalisation: harness/props/c17.py real_reconnect (kept generators closed / collected at scripted moments) against Model/Reconnect.lean', 'harness/translate.py finalisation-time state-access facts (exitStateReads, onDisconnectOnParam)', 'harness/translate.py attribute-write facts']
+TRUSTED = ['correspondence: harness/world.py run_chain (two connections on one WebSocket object)', 'late finalisation: harness/props/c17.py real_reconnect (kept generators closed / collected at scripted moments) against Model/Reconnect.lean', 'harness/translate.py finalisation-time state-access facts (exitStateReads, onDisconnectOnParam)', 'harness/translate.py attribute-write facts', 'key schedule: harness/props/c17.py key_chain / ctr_nonces (a counter stream served in place of os.urandom) against Model/KeyChain.lean; harness/translate.py initValues (the text of the State.key initialiser)']
 ASSUMPTIONS = ['oracle is real-vs-real: the second connection on a used object against the first connection on a new object, same server behaviour and same key draw']
 
 def endings(rng):
@@ -114,9 +114,17 @@ def explore_persist_touch(res, tier, rng):
                 break
 
 
-def explore_keys(res, tier):
+def ctr_nonces(count):
+    """what the counter stream of `key_chain(..., 'ctr')` serves for `count` consecutive os.urandom(16) calls (one sha256 block per call)"""
+    import hashlib
+    return [hashlib.sha256(b'key stream %d' % i).digest()[:16] for i in range(1, count + 1)]
+
+
+def explore_keys(res, tier, model_ok=True):
     """"begins with a new handshake key": long reconnect chains on one object (what persist() produces over hours); no key of the chain
-    may have been on the wire before.  (A repeat with the real os.urandom has probability < 2^-100.)"""
+    may have been on the wire before.  (A repeat with the real os.urandom has probability < 2^-100.)
+    Correspondence (Model/KeyChain.lean `chain`, theorems Properties/C17_Keys.lean): for the counter stream the nonces are known, so the
+    model's key schedule (driver `http keychain`: constructor = draw 0, connect #k = draw k) must give exactly the keys the real requests carry."""
     n = 80 if tier == 'quick' else 1500
     items = [(n, 'os'), (n, 'ctr'), (n // 2, 'os')]
     for (k, src), keys in zip(items, runner.parallel_map('props.c17', 'key_chain', items, chunk=1)):
@@ -133,6 +141,15 @@ def explore_keys(res, tier):
                                          input=dict(key_chain=[k, src]), observed=key))
                 break
             seen[key] = i
+        if src == 'ctr' and model_ok:
+            # one os.urandom(16) per State: the constructor's, then one per connect()
+            mk = runner.model_run(['http keychain ' + b''.join(ctr_nonces(k + 1)).hex()])[0].split(' ')
+            model = [bytes.fromhex(h).decode('latin-1') for h in mk[1:]]
+            res.traces_validated += 1
+            if model != list(keys):
+                at = next((i for i, (a, b) in enumerate(zip(model, keys)) if a != b), min(len(model), len(keys)))
+                res.diffs.append(dict(input=dict(key_chain=[k, src]), real='connect #%d: %r' % (at + 1, keys[at] if at < len(keys) else None),
+                                      model='connect #%d: %r' % (at + 1, model[at] if at < len(model) else None)))
 
 
 def explore(res, tier, seed, model_ok=True):
@@ -212,7 +229,7 @@ def explore(res, tier, seed, model_ok=True):
         if 'E:connected' in got and key not in got:
             res.failures.append(dict(cls='stale-key', what='request of the new connection does not carry a fresh key', input=dict(previous=ch[:-1], next=ch[-1])))
     explore_reconnect(res, tier, rng, model_ok)
-    explore_keys(res, tier)
+    explore_keys(res, tier, model_ok)
     explore_persist_touch(res, tier, rng)
     res.samples += [dict(previous='mid-fragment', next=scenario_line(nexts[0])[-300:])]
 
